@@ -476,9 +476,9 @@ func runC12Local(c *Ctx) {
 		r.note("no /bin/sh: real local jobs skipped")
 		return
 	}
-	rounds := 4
+	rounds := 6
 	if c.Thorough {
-		rounds = 40
+		rounds = 60
 	}
 	for round := 0; round < rounds; round++ {
 		g := c12Cfg{MaxCores: 1 + c.Rng.Intn(4), MaxMemGB: 1 + c.Rng.Intn(4), TPJ: 1, MPJ: 1, EV: c.Rng.Intn(2)}
@@ -523,6 +523,16 @@ func runC12Local(c *Ctx) {
 			reqs = append(reqs, q)
 		}
 		runLocalRound(c, round, g, reqs)
+		stalled := false
+		for _, v := range r.Violations {
+			if v.Key == "C12:local:stall" || v.Key == "C12:local:job-did-not-end" {
+				stalled = true
+			}
+		}
+		if stalled {
+			r.note("local job rounds stopped after the first stall")
+			break
+		}
 	}
 	// replay of the negative witness Props.C12.vmem_floor_exceeds_limit on the real job manager
 	runLocalRound(c, 1000, c12Cfg{MaxCores: 4, MaxMemGB: 4, MaxVmemMB: 2048, TPJ: 1, MPJ: 1, EV: 0},
